@@ -437,7 +437,15 @@ func unmarshalStructWithMap[T any](data []byte, v *T, mapField string) error {
 	// Unmarshal into the map.
 	m := map[string]any{}
 	if err := json.Unmarshal(data, &m); err != nil {
-		return err
+		// Any JSON value is acceptable for a key that is not a field of the
+		// struct, including a number that float64 cannot hold (1e400).
+		// Decode again, keeping numbers as json.Number.
+		dec := json.NewDecoder(bytes.NewReader(data))
+		dec.UseNumber()
+		m = map[string]any{}
+		if dec.Decode(&m) != nil {
+			return err
+		}
 	}
 	// Delete from the map the fields of the struct.
 	for n := range names {
